@@ -280,4 +280,144 @@ def spec (c : Call) : Res :=
       | _, _ => evalCall c)
   | _ => evalCall c
 
+/-! ## One expression node evaluated on the successive rows of a statement
+
+The four `Regexp*` structs keep state between the `Eval` calls of one statement: `compileOnce`,
+`cacheRegex`, `cacheVal`, the compiled regex `re` / `compileErr`, and `cachedVal`. When pattern or
+match_type are not constants (`canBeCached` false: a column, a user variable…) the regex is
+re-compiled for every row. The model below is the transliteration of `compile` + the head and
+tail of `Eval`, parametrised by a *caching discipline* (may the regex compiled from the key `o`
+be kept for a row whose pattern/flags are `n`?) so that the discipline of the code (`perRow`:
+never), the sound optimisation (`keyed`: iff pattern **and** flags are unchanged) and unsound
+ones (`patternOnly`, `flagsOnly`) are instances. -/
+
+/-- What a regex is compiled from: the pattern value and the match_type value, each as its class
+(NULL, ill-formed, …) and an identity (equal identities = equal values). -/
+abbrev Key := (PatArg × Nat) × (FlagArg × Nat)
+
+/-- The argument values of one row. -/
+structure Row where
+  text : StrArg
+  pat : PatArg × Nat
+  flags : FlagArg × Nat
+  rep : StrArg
+  ints : List IntArg
+  deriving DecidableEq
+
+def Row.key (r : Row) : Key := (r.pat, r.flags)
+
+/-- The matcher as a parameter: what ICU delivers for the regex compiled from `k` on a text. -/
+abbrev World := Key → StrArg → Matcher
+
+/-- Which arguments are constants of the statement (`canBeCached`: no GetField / UserVar /
+SystemVar / ProcedureParam below them); `rest` = position, occurrence, return_option, replacement. -/
+structure Modes where
+  textConst : Bool
+  patConst : Bool
+  flagsConst : Bool
+  restConst : Bool
+  deriving DecidableEq
+
+/-- `r.cacheRegex = canBeCached(ctx, r.Pattern, r.Flags)`. -/
+def Modes.cacheRegex (md : Modes) : Bool := md.patConst && md.flagsConst
+/-- `r.cacheVal = r.cacheRegex && canBeCached(ctx, r.Text, r.Position, …)`. -/
+def Modes.cacheVal (md : Modes) : Bool := md.cacheRegex && md.textConst && md.restConst
+
+/-- The state of a node that survives from row to row. `compiled` stands for `re`/`compileErr`:
+the outcome of `compileRegex` is a function of the (pattern, flags) values it read, so the state
+records those values. -/
+structure Node where
+  once : Bool
+  cacheRegex : Bool
+  cacheVal : Bool
+  compiled : Option Key
+  cachedVal : Option Res
+  deriving DecidableEq
+
+def Node.fresh : Node := ⟨false, false, false, none, none⟩
+
+/-- `Eval` from the point after `compile`, with the regex that was compiled from `k`: the compile
+outcome (NULL / error / usable) is `k`'s, the text, positions and replacement are the row's. -/
+def evalCompiled (W : World) (fn : Fn) (k : Key) (r : Row) : Res :=
+  evalCall { fn, text := r.text, pat := k.1.1, flags := k.2.1, rep := r.rep, ints := r.ints, m := W k r.text }
+
+/-- The row evaluated on a node of its own (what the property demands of every row). -/
+def evalFresh (W : World) (fn : Fn) (r : Row) : Res := evalCompiled W fn r.key r
+
+/-- `d o n = true`: the regex compiled from `o` is kept for a row whose pattern/flags are `n`. -/
+abbrev Discipline := Key → Key → Bool
+
+/-- The code: `if !r.cacheRegex { close; r.re, r.compileErr = compileRegex(…) }` on every row. -/
+def Discipline.perRow : Discipline := fun _ _ => false
+/-- Re-compile iff the pattern or the flags changed. -/
+def Discipline.keyed : Discipline := fun o n => decide (o = n)
+/-- Keyed on the pattern value alone (unsound). -/
+def Discipline.patternOnly : Discipline := fun o n => decide (o.1 = n.1)
+/-- Keyed on the flags value alone (unsound). -/
+def Discipline.flagsOnly : Discipline := fun o n => decide (o.2 = n.2)
+
+def Discipline.Sound (d : Discipline) : Prop := ∀ o n, d o n = true → o = n
+
+/-- `cachedVal != nil` can only hold for a value (NULL and errors are never cached). -/
+def Res.isValue : Res → Bool
+  | .int _ => true
+  | .str _ => true
+  | _ => false
+
+/-- `if r.cacheVal { r.cachedVal = … }` exists in LIKE, INSTR, SUBSTR; REPLACE never fills it. -/
+def cachesResult : Fn → Bool
+  | .replace => false
+  | _ => true
+
+/-- The key of the regex `compile` leaves in `r.re` for this row. -/
+def pickKey (d : Discipline) (cacheRegex : Bool) (compiled : Option Key) (rk : Key) : Key :=
+  if cacheRegex then compiled.getD rk
+  else match compiled with
+    | some k0 => if d k0 rk then k0 else rk
+    | none => rk
+
+/-- `r.compileOnce.Do(…)`: decides `cacheRegex` / `cacheVal`, and compiles from the current row
+when the regex can be cached. -/
+def onceBlock (md : Modes) (n : Node) (rk : Key) : Node :=
+  if n.once then n else
+    { n with once := true, cacheRegex := md.cacheRegex, cacheVal := md.cacheVal,
+             compiled := if md.cacheRegex then some rk else n.compiled }
+
+/-- One `Eval` on a node: `cachedVal` short cut, `compile` (once-block, then the per-row branch),
+evaluation, `cachedVal` update. -/
+def step (d : Discipline) (W : World) (fn : Fn) (md : Modes) (n : Node) (r : Row) : Node × Res :=
+  match n.cachedVal with
+  | some v => (n, v)
+  | none =>
+    let n1 := onceBlock md n r.key
+    let k := pickKey d n1.cacheRegex n1.compiled r.key
+    let res := evalCompiled W fn k r
+    ({ n1 with compiled := some k,
+               cachedVal := if n1.cacheVal && cachesResult fn && res.isValue then some res else none }, res)
+
+/-- The rows of a statement, in evaluation order, through one node. -/
+def runRows (d : Discipline) (W : World) (fn : Fn) (md : Modes) : Node → List Row → List Res
+  | _, [] => []
+  | n, r :: rs => (step d W fn md n r).2 :: runRows d W fn md (step d W fn md n r).1 rs
+
+/-- Constant arguments have the same value in every row. -/
+def Respects (md : Modes) (rows : List Row) : Prop :=
+  (md.textConst = true → ∀ x ∈ rows, ∀ y ∈ rows, x.text = y.text) ∧
+  (md.patConst = true → ∀ x ∈ rows, ∀ y ∈ rows, x.pat = y.pat) ∧
+  (md.flagsConst = true → ∀ x ∈ rows, ∀ y ∈ rows, x.flags = y.flags) ∧
+  (md.restConst = true → ∀ x ∈ rows, ∀ y ∈ rows, x.rep = y.rep ∧ x.ints = y.ints)
+
+instance (md : Modes) (rows : List Row) : Decidable (Respects md rows) := by
+  unfold Respects; infer_instance
+
+def Row.call (W : World) (fn : Fn) (r : Row) : Call :=
+  { fn, text := r.text, pat := r.pat.1, flags := r.flags.1, rep := r.rep, ints := r.ints, m := W r.key r.text }
+
+/-- Spec of a statement: every row as demanded by the single-call Spec. -/
+def specRows (W : World) (fn : Fn) (rows : List Row) : List Res := rows.map fun r => spec (r.call W fn)
+
+/-- The first defect region a row of the statement falls into. -/
+def regionRows (W : World) (fn : Fn) (rows : List Row) : Option String :=
+  rows.findSome? fun r => region (r.call W fn)
+
 end Gms.RegexFn
